@@ -146,6 +146,22 @@ def run(c, facts, tier):
                     sink_ty = targs[0] if targs else norm_ty(f.node["output"])
                 ok = last in ORDER_FREE_SINKS or (last == "collect" and sink_ty is not None and re.search(r"Hash(Map|Set)|BTree(Map|Set)", sink_ty) is not None and not re.search(r"Vec|String", re.sub(r"Hash(Map|Set)<.*>|BTree(Map|Set)<.*>", "", sink_ty)))
                 det = "`%s` — chain %s ends in %s%s" % (src(x)[:70], ms, last, (" into " + sink_ty) if sink_ty else "")
+                if ok and last == "collect":
+                    # collecting into a hash collection forgets the order only if no two source entries produce the same
+                    # key: the key must be the source key or the source value itself (both unique), not a function of them
+                    for mm, a_, _n in ch:
+                        if mm in ("map", "filter_map", "flat_map") and a_ and a_[0].get("k") == "closure" and len(a_[0]["params"]) == 1:
+                            prm = rx.closure_params(a_[0])[0]
+                            names = rx.pat_bindings(prm)
+                            bd = rx.closure_body(a_[0])
+                            keyexpr = bd["elems"][0] if bd.get("k") == "tuple" and bd["elems"] else bd
+                            kv = rx.var_name(keyexpr)
+                            if not (kv is not None and kv in names):
+                                ok = False
+                                det += "; the key of the collected entries is `%s`, a function of the source entry: two entries can collide and the survivor depends on the iteration order" % src(keyexpr)[:60]
+                        elif mm in ("map", "filter_map", "flat_map"):
+                            ok = None
+                            det += "; mapping function not analysable"
             c.ob("C15.hash-order", fn, t.split("::")[-1] + " over a hash collection", ok, det + ("" if ok else " — the iteration order of a HashMap depends on a per-process random seed and would reach the output"), witness="compile the same expression in two processes" if ok is False else None)
     c.ob("C15.hash-order", "crate", "hash-iteration census", True, "%d iteration site(s) over hash collections" % nh, nontrivial=False)
     # definitions come from a Vec
@@ -170,9 +186,14 @@ def run(c, facts, tier):
         chain = None
         for x in find_all(f.body, lambda x: x.get("k") == "mcall" and x["m"] == "as_secs"):
             base, ch = rx.method_chain(x)
-            if src(base).endswith("SystemTime::now()") or "now" in src(base):
+            b0 = rx.peel(base)
+            while b0.get("k") == "paren":
+                b0 = rx.peel(b0["e"])
+            if b0.get("k") == "call" and b0["f"].get("k") == "path" and b0["f"]["segs"][-2:] == ["SystemTime", "now"] and not b0["args"]:
                 chain = [mm for mm, _, _ in ch]
-        c.ob("C15.clock", f.key, "the clock value reaches the text only as whole seconds since the epoch", chain == ["duration_since", "unwrap", "as_secs"], "chain on SystemTime::now(): %s" % chain)
+            else:
+                chain = ["<%s>" % src(base)[:60]] + [mm for mm, _, _ in ch]
+        c.ob("C15.clock", f.key, "the clock value reaches the text only as whole seconds since the epoch", chain == ["duration_since", "unwrap", "as_secs"], "chain on the clock reading: %s (must be SystemTime::now().duration_since(UNIX_EPOCH).unwrap().as_secs(): the truncated second of an instant inside the call; an offset added before truncation can leave the call's time window)" % chain, witness="compile during the second half of a second" if chain != ["duration_since", "unwrap", "as_secs"] else None)
         stored = [k for k, s_ in facts.statics.items() if "SystemTime" in s_["ty"] or "Instant" in s_["ty"]]
         c.ob("C15.clock", "crate", "the clock is not cached", not stored, "statics holding a time: %s" % stored if stored else "read afresh in every call of the time-test generator")
     c.floor("bodies scanned for effects", len(m.bodies), 150)
